@@ -122,9 +122,16 @@ class World:
             wfeat = FeaturePortfolioWeight(space_contracts, -float(wbounds), float(wbounds))
             kw = {"state": list(kw.get("state", [])) + [wfeat]}
         space_cls = WeightChanges if model.get("relative") else BoxPortfolio
-        self.env = TradingEnv(action_space=space_cls(space_contracts, low=-4.0, high=4.0, margin=float(model["thr"]),
-                                                         fractional=bool(model.get("fractional", True)),
-                                                         as_weights=model.get("measure", "weight") == "weight"),
+        self.menu = bool(model.get("menu")) and not model.get("relative") and float(model["thr"]) == 0.0
+        if self.menu:
+            from tradingenv.spaces import DiscretePortfolio
+            space = DiscretePortfolio(space_contracts, [[float(t[k]) if k in t else 0.0 for k in self.space_keys] for t in model["targets"]],
+                                      as_weights=model.get("measure", "weight") == "weight", fractional=bool(model.get("fractional", True)))
+        else:
+            space = space_cls(space_contracts, low=-4.0, high=4.0, margin=float(model["thr"]),
+                              fractional=bool(model.get("fractional", True)),
+                              as_weights=model.get("measure", "weight") == "weight")
+        self.env = TradingEnv(action_space=space,
                               reward=reward, transmitter=tr, broker_fees=fees, latency=cfg["lat"],
                               steps_delay=cfg["delay"], initial_cash=float(model["deposit"]), **kw)
         if wfeat is not None:
@@ -134,6 +141,13 @@ class World:
 
     def action(self, tgt):
         tgt = tgt if isinstance(tgt, dict) else {}
+        if getattr(self, "menu", False):
+            from .impl import frac
+            key = {k: frac(v) for k, v in tgt.items()}
+            for i, t in enumerate(self.model["targets"]):
+                if {k: Fraction(v) for k, v in t.items()} == key:
+                    return i
+            raise KeyError("target %r is not an entry of the menu" % (tgt,))
         return np.array([impl.fl(tgt[k]) if k in tgt else 0.0 for k in self.space_keys])
 
     def pos(self):
